@@ -177,3 +177,53 @@ def show(t, depth=0):
     if h == "agg":
         return "%s{%s}" % (t[1].split("::")[-1], ", ".join(show(a, depth + 1) for a in t[2]))
     return "%s(%s)" % (h, ", ".join(show(a, depth + 1) for a in t[1:]))
+
+
+# ------------------------------------------------------------------ closures in context
+def immediate_parent(defpath):
+    i = defpath.rfind("::{closure#")
+    return defpath[:i] if i >= 0 else None
+
+
+def terms_of(db, defpath, cache=None):
+    """Terms for a body; for closures the captured operands are resolved in the (recursively
+    resolved) immediate parent and the closure arguments stand for the receiver of the call
+    that takes the closure (iterator / Option adaptor)."""
+    cache = cache if cache is not None else {}
+    if defpath in cache:
+        return cache[defpath]
+    body = db.mir[defpath]
+    if body["dk"] != "Closure":
+        tm = Terms(body, db)
+        cache[defpath] = tm
+        return tm
+    par = immediate_parent(defpath)
+    ptm = terms_of(db, par, cache) if par in db.mir else None
+    env = None
+    recv = None
+    if ptm is not None:
+        pbody = db.mir[par]
+        for blk in pbody["blocks"]:
+            for s in blk["s"]:
+                rv = s.get("rv")
+                if rv and rv["k"] == "Aggregate" and rv.get("closure") == defpath:
+                    env = [ptm.operand(o) for o in rv["ops"]]
+                    cl_local = s["d"][0]
+                    for b2 in pbody["blocks"]:
+                        t = b2["t"]
+                        if t["k"] != "Call":
+                            continue
+                        for n, a in enumerate(t["args"]):
+                            pl = a.get("m") or a.get("c")
+                            if pl and pl[0] == cl_local and n > 0:
+                                recv = ptm.operand(t["args"][0])
+    tm = Terms(body, db, env=env)
+    tm.closure_arg = recv if recv is not None else ("unk",)
+    cache[defpath] = tm
+    return tm
+
+
+def bodies_under(db, fn):
+    """fn and all closures (transitively) defined inside it."""
+    pre = fn + "::{closure#"
+    return [fn] + sorted(k for k in db.mir if k.startswith(pre))
